@@ -23,7 +23,7 @@ RULE = ('scenarios = every non-degenerate circuit of MC_C10 (positive R, C, L); 
 
 
 def models(tier, seed):
-    return [dict(module='MC_C10.tla', cfg=f'MC_C10_{tier}.cfg', batch=20), dict(module='MC_C10.tla', cfg='MC_C10_quick2.cfg', batch=20)]
+    return [dict(module='MC_C10.tla', cfg=f'MC_C10_{tier}.cfg', batch=20), dict(module='MC_C10.tla', cfg='MC_C10_quick2.cfg', batch=20)] + ([dict(module='MC_C10.tla', cfg='MC_C10_quick3.cfg', batch=20)] if tier == 'thorough' else [dict(module='MC_C10.tla', cfg='MC_C10_light3.cfg', batch=20)])
 
 
 def required_tags(tier):
@@ -34,6 +34,10 @@ def replay(case, ctx):
     comps = case['comps']
     h = stable_hash(comps)
     r = CaseResult(case_id=f'{h:x}')
+    if ctx.get('tier') != 'thorough' and sum(1 for c in comps if c['kind'] != 'ground') >= 5 and sum(1 for c in comps if c['kind'] == 'capacitor') >= 2 and h % 4:
+        r.skipped = 'sampled_out_in_quick_tier'
+        r.nontrivial = False
+        return r
     tg = {f'states:{min(len(case["states"]), 2)}'}
     ng = [c for c in comps if c['kind'] != 'ground']
     if sum(1 for c in ng if c['kind'] == 'inductance') >= 2:
